@@ -2,7 +2,7 @@
 //! instruction-emitting method emits its opcode with the call's arguments in grammar order.
 
 use crate::bmodel::{expected_from_table, method, method_sems, show_trace, ArgCtx, CallOut, MClass, MethodSem, RandArgs};
-use crate::gram::db;
+use crate::gram::{db, K};
 use crate::mon::builder_term::open_block_builder;
 use crate::rs;
 use crate::spec;
@@ -478,7 +478,7 @@ fn idiom(rng: &mut Rng, idx: u64) -> (dr::Module, Vec<String>) {
     let mut b = Builder::new();
     let void = b.type_void();
     let fnty = b.type_function(void, vec![]);
-    match idx % 3 {
+    match idx % 4 {
         0 => {
             let widths = [(64u32, true), (64, true), (32, false), (16, false), (8, false)];
             let (w, two) = widths[rng.below(widths.len())];
@@ -532,6 +532,73 @@ fn idiom(rng: &mut Rng, idx: u64) -> (dr::Module, Vec<String>) {
             }
             b.ret().unwrap();
             b.end_function().unwrap();
+        }
+        3 => {
+            // enumerants the LIVE enumerations declare beyond the frozen reference (what a grammar update adds):
+            // through the generic Builder methods, with parameters of the kinds the library's own reflection
+            // reports, they must round-trip like every other enumerant
+            use crate::generated::decls;
+            let mut extra: Vec<(K, u32)> = vec![];
+            for k in [K::ExecutionMode, K::Decoration, K::StorageClass, K::BuiltIn, K::Capability] {
+                if let Some(e) = decls::ENUMS.iter().find(|e| e.name == crate::gram::kind_name(k)) {
+                    extra.extend(e.variants.iter().map(|(_, v)| *v).filter(|v| !d.enum_declared(k, *v)).map(|v| (k, v)));
+                }
+            }
+            let f = b.begin_function(void, None, FunctionControl::NONE, fnty).unwrap();
+            b.begin_block(None).unwrap();
+            b.ret().unwrap();
+            b.end_function().unwrap();
+            log.push(format!("{} enumerants beyond the frozen reference", extra.len()));
+            for _ in 0..extra.len().min(4) {
+                let (k, v) = extra[rng.below(extra.len())];
+                let params: Vec<K> = decls::mk_enum_operand(k, v).map(|o| o.additional_operands().iter().map(|l| l.kind).collect()).unwrap_or_default();
+                let as_operands = |b: &mut Builder| -> Option<Vec<Operand>> {
+                    params.iter().map(|p| match p {
+                        K::LiteralInteger => Some(Operand::LiteralBit32(8)),
+                        K::IdRef => Some(Operand::IdRef(b.id())),
+                        K::LiteralString => Some(Operand::LiteralString("s".into())),
+                        _ => None,
+                    }).collect()
+                };
+                match k {
+                    K::ExecutionMode => {
+                        if let Some(m) = decls::ExecutionMode_by_value(v) {
+                            if params.iter().all(|p| *p == K::LiteralInteger) {
+                                b.execution_mode(f, m, vec![8u32; params.len()]);
+                                log.push(format!("execution_mode({}, {:?}, {} literals)", f, m, params.len()));
+                            } else if params.iter().all(|p| *p == K::IdRef) {
+                                let ids: Vec<u32> = params.iter().map(|_| b.id()).collect();
+                                b.execution_mode_id(f, m, ids);
+                                log.push(format!("execution_mode_id({}, {:?}, {} ids)", f, m, params.len()));
+                            }
+                        }
+                    }
+                    K::Decoration => {
+                        if let (Some(dec), Some(ops)) = (decls::Decoration_by_value(v), as_operands(&mut b)) {
+                            b.decorate(f, dec, ops);
+                            log.push(format!("decorate({}, {:?}, {} parameters)", f, dec, params.len()));
+                        }
+                    }
+                    K::StorageClass => {
+                        if let Some(sc) = decls::StorageClass_by_value(v) {
+                            let _ = b.variable(void, None, sc, None);
+                            log.push(format!("variable(.., {:?})", sc));
+                        }
+                    }
+                    K::BuiltIn => {
+                        if let Some(bi) = decls::BuiltIn_by_value(v) {
+                            b.decorate(f, rspirv::spirv::Decoration::BuiltIn, vec![Operand::BuiltIn(bi)]);
+                            log.push(format!("decorate({}, BuiltIn, {:?})", f, bi));
+                        }
+                    }
+                    _ => {
+                        if let Some(c) = decls::Capability_by_value(v) {
+                            b.capability(c);
+                            log.push(format!("capability({:?})", c));
+                        }
+                    }
+                }
+            }
         }
         _ => {
             let file = b.string("shader.comp");
@@ -617,7 +684,7 @@ pub fn run(cfg: &Cfg, rep: &mut Report) {
                 r.seen("idioms", log.first().map(|s| s.split(',').next().unwrap_or("").split('(').next().unwrap_or("").to_string()).unwrap_or_default());
                 roundtrip(&m, &log, None, r, &rp);
             }
-            Err(p) => r.violation(format!("C06:panic:idiom:{}", crate::util::panic_key(&p)), format!("a Builder call of an idiom (kind {}) panicked or failed: {}", idx % 3, p.msg), rp()),
+            Err(p) => r.violation(format!("C06:panic:idiom:{}", crate::util::panic_key(&p)), format!("a Builder call of an idiom (kind {}) panicked or failed: {}", idx % 4, p.msg), rp()),
         }
     });
     let _ = Operand::IdRef(0);
